@@ -12,7 +12,7 @@
 (* harness can replay it into the real tool and have the recorded trace    *)
 (* validated by TraceSession.                                              *)
 (***************************************************************************)
-EXTENDS Session, Json
+EXTENDS Session, Json, MCWords
 
 CONSTANTS Tags,        \* connection tags in use, e.g. {"1", "2"}
           CIds,        \* client-range ids besides 1, e.g. {2, 3}
@@ -22,7 +22,8 @@ CONSTANTS Tags,        \* connection tags in use, e.g. {"1", "2"}
           Gaps,        \* time increments (ticks) between messages
           Cmds,        \* user command events on offer
           Junk,        \* non-message lines on offer
-          Filter0      \* initial filter ("all", or a matcher tree)
+          Filter0,     \* initial filter (NoFilter, or a matcher tree)
+          Show         \* pass non-message lines through (FALSE = --supress)
 
 VARIABLES S, inp, act
 vars == <<S, inp, act>>
@@ -49,15 +50,55 @@ MiniProto ==
    wl_data_offer |-> [version |-> 3, enums |-> [none |-> [bitfield |-> FALSE, entries |-> <<>>]],
        msgs |-> [finish |-> <<>>]]]
 
-MCDict == [w \in {"A", "B", "C"} |-> <<w>>]
 SrvIds1 == {-16777216}
 SrvIds2 == {-16777216, -1}
 NoCmds == {}
 NoJunk == {}
+NoIds  == {}
 
-AllFilter == IF Filter0 = "all" THEN FAll ELSE Refine(FAll, Filter0)
+\* matcher trees for the command sets
+AnyT == [k |-> "any"]
+Wd(w) == [k |-> "w", p |-> C(w)]
+Bare(o) == [k |-> "pat", form |-> "bare", conn |-> AnyT, obj |-> o]
+BareOn(c, o) == [k |-> "pat", form |-> "bare", conn |-> Wd(c), obj |-> o]
+Full(o, n) == [k |-> "pat", form |-> "full", conn |-> AnyT, obj |-> o, name |-> n, args |-> [k |-> "noargs"]]
+TypeO(w) == [k |-> "type", t |-> Wd(w)]
+IdO(i) == [k |-> "id", id |-> i]
+IdGenO(i, g) == [k |-> "idgen", id |-> i, gen |-> g]
+AnyO == [k |-> "any"]
+StarP == Bare(AnyO)
+ListM(pos, neg) == [k |-> "list", pos |-> pos, neg |-> neg]
+BangM == ListM(<<>>, <<>>)
 
-Init == /\ S = InitState(AllFilter, FNone, TRUE)
+CmdFilter(ast) == [e |-> "cmd", c |-> "filter", hasarg |-> TRUE, ok |-> TRUE, ast |-> ast]
+CmdBreak(ast)  == [e |-> "cmd", c |-> "break", hasarg |-> TRUE, ok |-> TRUE, ast |-> ast]
+CmdBadFilter   == [e |-> "cmd", c |-> "filter", hasarg |-> TRUE, ok |-> FALSE, bad |-> "a.b.c"]
+CmdList(ast, cap) == [e |-> "cmd", c |-> "list", hasm |-> TRUE, ok |-> TRUE, ast |-> ast, cap |-> cap, caperr |-> FALSE]
+CmdListCur(cap)   == [e |-> "cmd", c |-> "list", hasm |-> FALSE, ok |-> TRUE, cap |-> cap, caperr |-> FALSE]
+CmdConn(a) == [e |-> "cmd", c |-> "conn", arg |-> a]
+
+\* C06: filter and selection changes at every point of the history
+CmdsLive == {CmdFilter(Bare(TypeO("wl_callback"))), CmdFilter(Full(AnyO, Wd("sync"))),
+             CmdFilter(ListM(<<>>, <<Bare(TypeO("wl_registry"))>>)), CmdFilter(BangM), CmdFilter(StarP),
+             CmdConn("A"), CmdConn("B"), CmdConn("all")}
+\* C11: queries over the recorded history
+CmdsList == {CmdList(StarP, -1), CmdList(StarP, 1), CmdList(StarP, 2), CmdList(Bare(TypeO("wl_callback")), -1),
+             CmdList(Bare(TypeO("wl_callback")), 1), CmdList(Full(AnyO, Wd("new")), 0),
+             CmdList(BareOn("B", IdGenO(2, 0)), -1), CmdListCur(-1), CmdListCur(1),
+             CmdConn("B"), CmdConn("all"), CmdFilter(Full(AnyO, Wd("sync")))}
+\* C12: accumulation of filter / breakpoint commands
+AtomA == Bare(TypeO("wl_callback"))
+AtomB == Full(AnyO, Wd("sync"))
+AtomC == Bare(IdGenO(2, 0))
+CmdsJoin == {CmdFilter(AtomA), CmdFilter(AtomB), CmdFilter(ListM(<<AtomC>>, <<AtomA>>)), CmdFilter(ListM(<<>>, <<AtomB>>)),
+             CmdFilter(StarP), CmdFilter(BangM), CmdBadFilter,
+             CmdBreak(AtomA), CmdBreak(ListM(<<>>, <<AtomC>>)), CmdBreak(StarP), CmdBreak(BangM)}
+FilterCb == Bare(TypeO("wl_callback"))
+
+NoFilter == [k |-> "nofilter"]
+AllFilter == IF Filter0.k = "nofilter" THEN FAll ELSE Refine(FAll, Filter0)
+
+Init == /\ S = InitState(AllFilter, FNone, Show)
         /\ inp = <<>>
         /\ act = [e |-> "init"]
 
@@ -159,6 +200,43 @@ PropLatest == [][ (act'.e = "msg" /\ Len(S'.hist) = Len(S.hist) + 1) =>
                   IN /\ r.target.gen <= Len(d[r.target.id]) - 1
                      /\ \A a \in 1..Len(r.args) :
                           (r.args[a].k = "obj" /\ r.args[a].new) => r.args[a].obj.gen = Len(d[r.args[a].obj.id]) - 1 ]_vars
+
+\* C04: what a connection's table holds depends only on its own lines, however
+\* they are interleaved with other connections' lines (times relative to the common base)
+RECURSIVE SoloDbOf(_, _, _)
+SoloDbOf(tag, evs, d) ==
+  IF evs = <<>> THEN d
+  ELSE LET ev == Head(evs) IN
+       IF ev.e = "msg" /\ TagOf(ev.tag) = tag
+       THEN SoloDbOf(tag, Tail(evs), Resolve(d, <<>>, ev.m, ev.t - S.base).db)
+       ELSE SoloDbOf(tag, Tail(evs), d)
+InvSolo == \A k \in 1..Len(S.conns) : S.conns[k].db = SoloDbOf(S.conns[k].tag, inp, EmptyDb)
+
+\* properties of the printed items
+OutOf(ev) == Step(S, ev).out
+Count(o, kind) == Cardinality({i \in 1..Len(o) : o[i].k = kind})
+\* C04: a connection is announced exactly when it is opened, reported closed exactly once at end of input
+PropAnnounce == [][ LET o == OutOf(act') IN
+                      /\ Count(o, "new") = Len(S'.conns) - Len(S.conns)
+                      /\ Count(o, "closed") = Cardinality({k \in 1..Len(S.conns) : S.conns[k].open /\ ~S'.conns[k].open})
+                      /\ (act'.e # "eof" => Count(o, "closed") = 0) ]_vars
+\* C08: one item per line (notices aside), the line's own text for a non-message line
+PropOneItemPerLine == [][ LET o == OutOf(act') IN
+                      /\ (act'.e = "junk" => o = (IF Show THEN <<ItJunk(act'.text)>> ELSE <<>>))
+                      /\ ((act'.e = "msg" /\ S.filter = FAll /\ S.sel = 0) =>
+                             (Count(o, "msg") = 1 /\ \E i \in 1..Len(o) : o[i].k = "msg" /\ o[i].h = Len(S'.hist))) ]_vars
+\* C06: a message line is printed iff the message is selected (filter and selected connection as of arrival)
+PropShownIffSelected == [][ act'.e = "msg" =>
+                      LET o == OutOf(act')  h == Len(S'.hist)  k == S'.hconn[h]  r == S'.hist[h] IN
+                      /\ (SelectedLo(S, k, r) => Count(o, "msg") = 1)
+                      /\ (~SelectedHi(S, k, r) => Count(o, "msg") = 0)
+                      /\ Len(S'.hist) = Len(S.hist) + 1 ]_vars
+\* C16: a separator only directly before a message item, and whenever the gap to the previously shown one exceeds a second
+PropSeparator == [][ LET o == OutOf(act') IN
+                      /\ \A i \in 1..Len(o) : o[i].k = "sep" => (i < Len(o) /\ o[i + 1].k = "msg")
+                      /\ (act'.e = "msg" /\ S.lastKnown /\ S.last # NoTime /\ Count(o, "msg") = 1) =>
+                            ((Count(o, "sep") = 1 /\ ~(\E i \in 1..Len(o) : o[i].k = "sep" /\ o[i].may))
+                               <=> ((act'.t - S.base) - S.last > SECOND)) ]_vars
 
 \* printing of transitions for the replay (always TRUE)
 Emit == PrintT(<<"EDGE", ToJson([path |-> inp, ev |-> act'])>>)
